@@ -95,7 +95,18 @@ def gen(seed, tier, index):
     if dbmode:
         # configuration stratum: the SQLite object store, on the simulated disk through the SQLite VFS seam (DESIGN 10.8)
         g.knobs.setdefault("conf", {})["objectstore.backend"] = "db"
+    junk = None
+    if index % 4 == 1:
+        # entries in the tokens directory that are NOT usable tokens (lost+found, a directory left by a killed C_InitToken or by another user): they must be
+        # skipped without costing a real token its place - wherever they come in the directory listing (the readdir order is a knob of the run)
+        junk = r.sample(["lost+found", "00000000-0000-0000-0000-000000000000", "ffffffff-ffff-ffff-ffff-ffffffffffff", ".tmp", "7fffffff-dead-beef-0000-000000000000"], r.randint(1, 2))
+        g.task(0, 1)
+        if r.random() < 0.5:
+            for jn in junk: g.emit({"act": "corrupt", "path": "/sim/tokens/" + jn, "how": {"k": "mkdir"}})
+            junk = None
     g.begin()
+    if junk:
+        for jn in junk: g.emit({"act": "corrupt", "path": "/sim/tokens/" + jn, "how": {"k": "mkdir"}})
     def probe(tid, pid):
         g.emit({"act": "probe_handles", "via": []}, tid)
     g.after_each = probe
